@@ -13,6 +13,7 @@ mod reader;
 mod pump;
 mod tyseed;
 mod e2e;
+mod locs;
 mod docs;
 mod total;
 mod bombs;
@@ -63,6 +64,7 @@ fn main() {
         ("snippet", m) => snippet::run(m, &a),
         ("scalarrt", m) => scalarrt::run(m, &a),
         ("calls", m) => calls::run(m, &a),
+        ("locs", m) => locs::run(m, &a),
         _ => { eprintln!("unknown area/mode"); 2 }
     };
     std::process::exit(code);
